@@ -33,4 +33,8 @@ typedef unsigned __int128 v_u128;
    (uint64_t)(v) < (1ull<<21) ? 3 : (uint64_t)(v) < (1ull<<28) ? 4 : (uint64_t)(v) < (1ull<<35) ? 5 : \
    (uint64_t)(v) < (1ull<<42) ? 6 : (uint64_t)(v) < (1ull<<49) ? 7 : (uint64_t)(v) < (1ull<<56) ? 8 : \
    (uint64_t)(v) < (1ull<<63) ? 9 : 10 )
+/* function forms (evaluated once per call; the macro forms blow up when nested) */
+static inline size_t spec_ci_len(const void *b, size_t a) { return SPEC_CI_LEN(b, a); }
+static inline v_u128 spec_ci_val(const void *b, size_t n) { return SPEC_CI_VAL(b, n); }
+static inline int spec_ci_fits64(const void *b, size_t n) { return SPEC_CI_VAL(b, n) <= (v_u128)UINT64_MAX; }
 #endif
